@@ -59,10 +59,11 @@ where
         }
         if self.q_vals.len() >= self.window_len {
             let old_val = self.q_vals.pop_front().unwrap();
+            // both sums consist of non-negative terms: never let rounding push one below zero
             if old_val > self.oldest_val {
-                self.cu = self.cu - (old_val - self.oldest_val);
+                self.cu = (self.cu - (old_val - self.oldest_val)).max(T::zero());
             } else {
-                self.cd = self.cd - (self.oldest_val - old_val);
+                self.cd = (self.cd - (self.oldest_val - old_val)).max(T::zero());
             }
             self.oldest_val = old_val;
         }
